@@ -301,7 +301,10 @@ def write_replay(pid, seed, tier, rp):
 def write_evidence(pid, tier, seed, cov, t0, nviol, rule):
     os.makedirs(EVID, exist_ok=True)
     ev = dict(property_id=pid, tier=tier, seed=seed, level="proof", coverage=cov,
-              assumptions=(rule or {}).get("assumptions", []),
+              assumptions=(rule or {}).get("assumptions", []) + [
+                  "the Coq model is written by hand; it is tied to /repo by this run's correspondence (differential testing from VERIF_SEED), so agreement is established on the generated cases only",
+                  "theorems hold for the model under the hypotheses visible in coq/Props/%s.v (e.g. small_params: lengths/limits <= 2^56, sizes_ok: sizes < 2^64, no_bool_seq: known finding D3)" % pid,
+                  "Go runtime, standard library, allocator and memory model are not modelled"],
               wall_s=round(time.time() - t0, 2), violations=nviol)
     json.dump(ev, open(os.path.join(EVID, pid + ".json"), "w"), indent=1)
 
